@@ -7,7 +7,10 @@ VERIF="$(cd "$(dirname "$0")/.." && pwd)"
 W=/tmp/seedwt
 rm -rf $W; mkdir -p $W
 git -C /repo worktree prune
-ls -d $VERIF/seeded/C*/*/ > $W/all.txt
+# optional: SEEDS_OF="C02 C05" restricts the seeded changes, CHECKS="C02 C05 C06" the checks that are run
+ls -d $VERIF/seeded/C*/*/ > $W/all0.txt
+if [ -n "$SEEDS_OF" ]; then : > $W/all.txt; for c in $SEEDS_OF; do grep "/seeded/$c/" $W/all0.txt >> $W/all.txt; done; else cp $W/all0.txt $W/all.txt; fi
+CHECKS=${CHECKS:-$(seq -f "C%02g" 1 20)}
 for k in $(seq 1 $N); do
   (
     git -C /repo worktree add --detach -q $W/repo$k HEAD || exit 2
@@ -19,8 +22,8 @@ for k in $(seq 1 $N); do
       cid=$(basename $(dirname $d)); name=$(basename $d)
       git -C $W/repo$k apply "$d/patch.diff" 2>/dev/null || continue
       al=""
-      for i in $(seq -w 1 20); do
-        if timeout 3000 /venv/bin/python harness/check.py C$i --tier quick 2>&1 | grep -q VIOLATION; then al="$al C$i"; fi
+      for c in $CHECKS; do
+        if timeout 3000 /venv/bin/python harness/check.py $c --tier quick 2>&1 | grep -q VIOLATION; then al="$al $c"; fi
       done
       git -C $W/repo$k checkout -- .
       echo "$cid $name:$al" >> $W/matrix$k.txt
